@@ -255,12 +255,84 @@ func c16Chain(out *Out, c C16Case) {
 		case "evenodd":
 			res = isEven(c.N).Get()
 			want = 1 - c.N%2
+		case "foldright":
+			// a fold whose step function returns the lazy tail untouched ("last"): tail position, so the stack must not grow
+			xs := make([]int, c.N)
+			res = list.FoldRight(list.Of(xs...), 7, func(a int, b lazy.Eval[int]) lazy.Eval[int] { probe(); return b }).Get()
+			want = 7
 		default:
 			res = count(c.N, 0).Get()
 			want = c.N
 		}
 	}()
 	out.Ev("Chain", "n", c.N, "shape", c.Shape, "result", res, "want", want, "execs", execs, "mind", minD, "maxd", maxD)
+	out.Ev("End")
+}
+
+// one Eval extended twice: the two extensions are independent values (a continuation queue shared between them would make
+// the first one run the second one's function)
+func c16Share(out *Out, c C16Case) {
+	cj, _ := json.Marshal(c)
+	out.Ev("Init", "prog", (&EvalProg{K: "done"}).tla(), "case", string(cj))
+	var base lazy.Eval[int]
+	switch c.Shape {
+	case "call":
+		base = lazy.Call(func() int { return 5 })
+	case "tail":
+		base = lazy.TailCall(func() lazy.Eval[int] { return lazy.Done(5) })
+	default:
+		base = lazy.Done(5)
+	}
+	for i := 0; i < c.N; i++ {
+		if i%2 == 0 {
+			base = base.Map(func(x int) int { return x + 1 })
+		} else {
+			base = base.FlatMap(func(x int) lazy.Eval[int] { return lazy.Done(x + 1) })
+		}
+	}
+	x := base.Map(func(v int) int { return v + 100 })
+	y := base.FlatMap(func(v int) lazy.Eval[int] { return lazy.Done(v + 1000) })
+	z := base.Map(func(v int) int { return v + 10000 })
+	rz, ry, rx := z.Get(), y.Get(), x.Get()
+	out.Ev("Share", "k", c.N, "shape", c.Shape, "rx", rx, "ry", ry, "rz", rz)
+	out.Ev("End")
+}
+
+// a deferred computation that panics: the caller recovers and asks again - the computation has run once, not twice
+func c16PanicOnce(out *Out, c C16Case) {
+	cj, _ := json.Marshal(c)
+	out.Ev("Init", "prog", (&EvalProg{K: "done"}).tla(), "case", string(cj))
+	execs := 0
+	body := func() int {
+		execs++
+		panic("boom")
+	}
+	var get func() int
+	switch c.What {
+	case "lazy.Call":
+		get = lazy.Call(body).Get
+	case "lazy.TailCall":
+		get = lazy.TailCall(func() lazy.Eval[int] { return lazy.Done(body()) }).Get
+	case "lazy.Memoize":
+		get = lazy.Memoize(body)
+	case "fp.Memoize":
+		m := fp.Memoize(body)
+		get = func() int { return m(fp.Unit{}) }
+	case "lazy.Func1":
+		get = lazy.Func1(func(a int) int { return body() + a })(1).Get
+	case "lazy.Call.Map":
+		get = lazy.Call(body).Map(func(x int) int { return x + 1 }).Get
+	default:
+		fatal("c16: unknown panic target", c.What)
+	}
+	try := func() {
+		defer func() { _ = recover() }()
+		get()
+	}
+	try()
+	try()
+	try()
+	out.Ev("PanicOnce", "what", c.What, "execs", execs)
 	out.Ev("End")
 }
 
@@ -355,6 +427,12 @@ func cmdC16(args []string) {
 			out.tr++
 		case "conc":
 			c16Conc(out, c)
+			out.tr++
+		case "share":
+			c16Share(out, c)
+			out.tr++
+		case "paniconce":
+			c16PanicOnce(out, c)
 			out.tr++
 		}
 		sum.Inc(c.Kind, 1)
